@@ -10,8 +10,15 @@ pub fn silence_panics() {
     if std::env::var("A5_SHOW_PANICS").is_ok() {
         return;
     }
-    std::panic::set_hook(Box::new(|_| {}));
+    // silent, but remember where the last panic happened: if it was in the checker itself (outside
+    // `guard`) the top level reports it as a machinery failure with its location
+    std::panic::set_hook(Box::new(|info| {
+        if let (Some(l), Ok(mut g)) = (info.location(), LAST_PANIC.lock()) {
+            *g = format!("{}:{}", l.file(), l.line());
+        }
+    }));
 }
+pub static LAST_PANIC: std::sync::Mutex<String> = std::sync::Mutex::new(String::new());
 
 pub fn guard<T>(f: impl FnOnce() -> Result<T, String>) -> Result<T, String> {
     match catch_unwind(AssertUnwindSafe(f)) {
